@@ -24,6 +24,7 @@ macro_rules! spatial { ($reg:expr, $p:expr, $V:ty, $n:expr, $heavy:expr) => {{
         ep!($reg, format!("{}_is_approx_zero", p), n, |a| { let u: $V = Flat::rd(a); Out::flag(u.is_approx_zero()) });
         ep!($reg, format!("{}_is_magnitude_close_to", p), n + 1, |a| { let u: $V = Flat::rd(&a[..n]); Out::flag(u.is_magnitude_close_to(a[n])) });
         ep!($reg, format!("{}_angle_between", p), 2 * n, |a| { let u: $V = Flat::rd(&a[..n]); let v: $V = Flat::rd(&a[n..]); Out::of(vec![u.angle_between(v)]) });
+        ep!($reg, format!("{}_angle_between_degrees", p), 2 * n, |a| { let u: $V = Flat::rd(&a[..n]); let v: $V = Flat::rd(&a[n..]); #[allow(deprecated)] let d = u.angle_between_degrees(v); Out::of(vec![d]) });
         ep!($reg, format!("{}_refracted", p), 2 * n + 1, |a| { let u: $V = Flat::rd(&a[..n]); let v: $V = Flat::rd(&a[n..2 * n]); Out::of(u.refracted(v, a[2 * n]).flat()) });
     }
 }}; }
